@@ -7,7 +7,7 @@ import itertools
 from ..core import terms as T
 from ..core import asthelp as H
 from ..core.interp import Interp
-from ..core.progdb import AnalysisError
+from ..core.progdb import AnalysisError, call_name
 from ..core.specrun import run_spec
 from ..core.values import Frame, Obj, PyTuple, to_term
 from ..specs.merge import MergeHook, check_merge, check_term, merged_frame_of
@@ -79,8 +79,9 @@ def run(db, chk) -> None:
     m = db.mod(CA)
     TR = ("param", "TR")
     hook = MergeHook()
-    ref = f"{CA}:CommunicationAnalysis.get_comm_comp_overlap.get_comm_comp_overlap_value"
-    fn = m.func("CommunicationAnalysis.get_comm_comp_overlap.get_comm_comp_overlap_value")
+    per_rank_q = find_per_rank(m)
+    ref = f"{CA}:{per_rank_q}"
+    fn = m.func(per_rank_q)
     where = m.loc(fn)
     per_path = []
 
@@ -89,7 +90,20 @@ def run(db, chk) -> None:
 
     hook = PathHook()
     I = Interp(db, call_hook=hook)
-    runs = I.explore(ref, lambda I: (hook.reset(), {"trace_df": Frame(TR)})[1], lambda I: {"sym_table": T.P("sym_table"), "cls": Obj("cls", cls=(m, "CommunicationAnalysis"))})
+    def role_args(I):
+        hook.reset()
+        out = {}
+        for p_ in H.param_names(fn):
+            if p_ in ("cls", "self"):
+                out[p_] = Obj("cls", cls=(m, "CommunicationAnalysis"))
+            elif "sym" in p_:
+                out[p_] = T.P("sym_table")
+            elif "df" in p_ or "trace" in p_ or "kernel" in p_:
+                out[p_] = Frame(TR)
+            else:
+                raise AnalysisError(f"{per_rank_q}: role of parameter {p_} not recognised")
+        return out
+    runs = I.explore(ref, role_args, lambda I: {"sym_table": T.P("sym_table"), "cls": Obj("cls", cls=(m, "CommunicationAnalysis"))})
     chk.analysed_add("functions", ref)
     # the hook is reset at the start of every path; collect the merge calls per path from the event log instead
     good = [r for r in runs if r.raised is None]
@@ -166,6 +180,23 @@ def _one_path(db, chk, where, TR, run_, calls, ptag):
                "(raw durations double-count concurrent communication kernels)")
 
 
+def find_per_rank(m) -> str:
+    """the per-rank function of the overlap analysis, found by ROLE: the callee of get_comm_comp_overlap (nested closure or method of the class) that merges kernel intervals"""
+    outer = m.func("CommunicationAnalysis.get_comm_comp_overlap")
+    found = None
+    for c_ in ast.walk(outer):
+        if not isinstance(c_, ast.Call):
+            continue
+        nm_ = call_name(c_).split(".")[-1]
+        for q_ in (f"CommunicationAnalysis.get_comm_comp_overlap.{nm_}", f"CommunicationAnalysis.{nm_}", nm_):
+            d_ = m.functions.get(q_)
+            if d_ is not None and d_ is not outer and any(isinstance(x, ast.Call) and call_name(x).split(".")[-1] == "merge_kernel_intervals" for x in ast.walk(d_)):
+                found = q_
+    if found is None:
+        raise AnalysisError("get_comm_comp_overlap: no per-rank callee that merges kernel intervals was found")
+    return found
+
+
 def _rest(db, chk, m, TR):
     chk.floor("C07.R1-sweep", 8)
 
@@ -174,7 +205,7 @@ def _rest(db, chk, m, TR):
     f3 = m.func("CommunicationAnalysis.get_comm_comp_overlap")
 
     def hook3(I, name, pos, kw, node):
-        if name == "get_comm_comp_overlap_value":
+        if name.split(".")[-1] == find_per_rank(m).split(".")[-1]:
             return T.P("RATIO")
         return NotImplemented
 
